@@ -114,6 +114,28 @@ def run_views(case, ctx):
     ctx.cls('views:%s' % ('equal' if exp else 'different'))
 
 
+def run_edited(case, ctx):
+    """two arrays of 64+ cells compared, one of them edited in place, compared again: the answer follows the cells as they are NOW
+    (nothing remembered about two objects having been equal - or different - may be served again)"""
+    from pyg_base import eq
+    n = case['n']
+    a = np.arange(n, dtype=case['dtype']).reshape(case['shape'])
+    b = a.copy()
+    wrap = {'none': lambda v: v, 'list': lambda v: [v, 1], 'dict': lambda v: {'a': v}}[case['wrap']]
+    seq = []
+    st, r = ctx.call(eq, wrap(a), wrap(b)); seq.append(('equal copies', st, r, True))
+    flat = a.reshape(-1)
+    old = flat[case['pos']]
+    flat[case['pos']] = old + 1
+    st, r = ctx.call(eq, wrap(a), wrap(b)); seq.append(('after a[%d] += 1' % case['pos'], st, r, False))
+    st, r = ctx.call(eq, wrap(b), wrap(a)); seq.append(('swapped', st, r, False))
+    flat[case['pos']] = old
+    st, r = ctx.call(eq, wrap(a), wrap(b)); seq.append(('after the cell was put back', st, r, True))
+    for what, st, r, exp in seq:
+        ctx.check('eq_reference_model', st == 'ok' and isbool(r) and bool(r) == exp, lambda: 'two %s arrays of %d cells, %s: eq = %s %r, the cells say %s' % (case['dtype'], n, what, st, r, exp))
+    ctx.cls('arrays_edited_between_comparisons')
+
+
 def gen_views(rng):
     dtype = rng.choice(['int64', 'float64', 'int64'])
     if rng.random() < 0.5:
@@ -415,6 +437,8 @@ def run_case(case, ctx):
         laws(ctx, terms, 'universe:' + case['which'])
     elif k == 'views':
         run_views(case, ctx)
+    elif k == 'edited':
+        run_edited(case, ctx)
     elif k in ('pair', 'triple'):
         laws(ctx, [case[x] for x in ('x', 'y', 'z') if x in case], 'replay')
     else:
@@ -454,6 +478,13 @@ def run(spec, ctx):
             vc = gen_views(random.Random('C14v/%d/%d/%d/%d' % (spec['seed'], spec['shard'], i, j)))
             ctx.case(vc, nontrivial=vc['w1'] != vc['w2'])
             ctx.run_case(vc, run_case)
+        for j in range(6):
+            r_ = random.Random('C14e/%d/%d/%d/%d' % (spec['seed'], spec['shard'], i, j))
+            shape = r_.choice([[64], [100], [8, 8], [10, 13], [4, 4, 4], [256]])
+            n_ = int(np.prod(shape))
+            ec = {'kind': 'edited', 'n': n_, 'shape': shape, 'dtype': r_.choice(['int64', 'float64', 'int32']), 'pos': r_.randrange(n_), 'wrap': r_.choice(['none', 'none', 'list', 'dict'])}
+            ctx.case(ec, nontrivial=True)
+            ctx.run_case(ec, run_case)
         if ctx.full():
             break
 
